@@ -293,7 +293,7 @@ pub fn run_c09(ctx: &Ctx) -> i32 {
         }
     });
     let enabled_ref: &(dyn Fn(&StartState, usize) -> bool + Sync) = &*enabled;
-    let ex = Explorer { ctx, name: "bank-ledger".into(), alphabet: alphabet.clone(), homes: &homes, max_depth: usize::MAX, max_states: 2_000_000, ext: false, invariant: Some(&c09_invariant), keep_states: true, enabled: Some(enabled_ref) };
+    let ex = Explorer { ctx, name: "bank-ledger".into(), alphabet: alphabet.clone(), homes: &homes, max_depth: usize::MAX, max_states: 2_000_000, ext: false, invariant: Some(&c09_invariant), keep_states: false, enabled: Some(enabled_ref) };
     let out = ex.run(&start);
     // init_balance at genesis: the admin setter normalises like everything else
     let mut extra = json!({});
@@ -404,7 +404,7 @@ pub fn run_c12(ctx: &Ctx) -> i32 {
             }
         }
     }
-    let ex = Explorer { ctx, name: "admin-migration".into(), alphabet: alphabet.clone(), homes: &homes, max_depth: ctx.tier.pick(3, usize::MAX), max_states: ctx.tier.pick(60_000, 3_000_000), ext: false, invariant: None, keep_states: true, enabled: None };
+    let ex = Explorer { ctx, name: "admin-migration".into(), alphabet: alphabet.clone(), homes: &homes, max_depth: ctx.tier.pick(3, usize::MAX), max_states: ctx.tier.pick(60_000, 1_000_000), ext: false, invariant: None, keep_states: false, enabled: None };
     let out = ex.run(&starts.genesis);
     let mut extra = json!({});
     if out.closed && out.caps.is_empty() && out.states < 200_000 && ctx.vio_count.load(std::sync::atomic::Ordering::Relaxed) == 0 {
@@ -497,32 +497,51 @@ pub fn run_c08(ctx: &Ctx) -> i32 {
     adv.retain(|k| !k.is_empty());
     let max_adv = ctx.tier.pick(14, 40);
     // keep the alphabet bounded but spread over all modules
-    let step = (adv.len() / max_adv).max(1);
-    let adv: Vec<Vec<u8>> = adv.iter().step_by(step).take(max_adv).cloned().collect();
-    let mut keys: Vec<Vec<u8>> = vec![b"".to_vec(), b"k".to_vec(), b"\xff".to_vec(), b"pre".to_vec()];
-    keys.extend(adv.iter().cloned());
-    let mut alphabet: Vec<Program> = vec![];
-    for (ci, c) in [ad.a.clone(), ad.b.clone(), ad.c.clone()].iter().enumerate() {
-        for k in &keys {
-            let v = format!("v{}", ci).into_bytes();
-            alphabet.push(Program { entry: Entry::Execute { sender: ad.poor.clone(), contract: c.clone(), funds: vec![] }, root: 0, nodes: vec![Node { writes: vec![WriteOp::Set(k.clone(), v.clone())], ..Default::default() }] });
-            alphabet.push(Program { entry: Entry::Execute { sender: ad.poor.clone(), contract: c.clone(), funds: vec![] }, root: 0, nodes: vec![Node { writes: vec![WriteOp::Remove(k.clone())], ..Default::default() }] });
-            alphabet.push(Program { entry: Entry::AccessorWrite { contract: c.clone(), write: WriteOp::Set(k.clone(), format!("w{}", ci).into_bytes()) }, root: 0, nodes: vec![] });
-            alphabet.push(Program { entry: Entry::AccessorWrite { contract: c.clone(), write: WriteOp::Remove(k.clone()) }, root: 0, nodes: vec![] });
+    let adv_all = adv;
+    let pick = |n: usize| -> Vec<Vec<u8>> {
+        let step = (adv_all.len() / n).max(1);
+        adv_all.iter().step_by(step).take(n).cloned().collect()
+    };
+    let adv: Vec<Vec<u8>> = pick(max_adv);
+    let make_alphabet = |adv: &[Vec<u8>]| -> (Vec<Vec<u8>>, Vec<Program>) {
+        let mut keys: Vec<Vec<u8>> = vec![b"".to_vec(), b"k".to_vec(), b"\xff".to_vec(), b"pre".to_vec()];
+        keys.extend(adv.iter().cloned());
+        let mut alphabet: Vec<Program> = vec![];
+        for (ci, c) in [ad.a.clone(), ad.b.clone(), ad.c.clone()].iter().enumerate() {
+            for k in &keys {
+                let v = format!("v{}", ci).into_bytes();
+                alphabet.push(Program { entry: Entry::Execute { sender: ad.poor.clone(), contract: c.clone(), funds: vec![] }, root: 0, nodes: vec![Node { writes: vec![WriteOp::Set(k.clone(), v.clone())], ..Default::default() }] });
+                alphabet.push(Program { entry: Entry::Execute { sender: ad.poor.clone(), contract: c.clone(), funds: vec![] }, root: 0, nodes: vec![Node { writes: vec![WriteOp::Remove(k.clone())], ..Default::default() }] });
+                alphabet.push(Program { entry: Entry::AccessorWrite { contract: c.clone(), write: WriteOp::Set(k.clone(), format!("w{}", ci).into_bytes()) }, root: 0, nodes: vec![] });
+                alphabet.push(Program { entry: Entry::AccessorWrite { contract: c.clone(), write: WriteOp::Remove(k.clone()) }, root: 0, nodes: vec![] });
+            }
         }
-    }
-    alphabet.push(Program { entry: Entry::SendHelper { from: ad.rich.clone(), to: ad.b.clone(), coins: vec![("x".into(), 1)] }, root: 0, nodes: vec![] });
-    alphabet.push(Program { entry: Entry::User { sender: ad.rich.clone(), msg: Msg::Delegate { validator: VALIDATOR.into(), denom: "TOKEN".into(), amount: 1 } }, root: 0, nodes: vec![] });
-    alphabet.push(Program { entry: Entry::Instantiate { sender: ad.rich.clone(), code: 1, funds: vec![], label: "another".into(), admin: None }, root: 0, nodes: vec![Node { writes: vec![WriteOp::Set(b"pre".to_vec(), b"another".to_vec())], ..Default::default() }] });
+        alphabet.push(Program { entry: Entry::SendHelper { from: ad.rich.clone(), to: ad.b.clone(), coins: vec![("x".into(), 1)] }, root: 0, nodes: vec![] });
+        alphabet.push(Program { entry: Entry::User { sender: ad.rich.clone(), msg: Msg::Delegate { validator: VALIDATOR.into(), denom: "TOKEN".into(), amount: 1 } }, root: 0, nodes: vec![] });
+        alphabet.push(Program { entry: Entry::Instantiate { sender: ad.rich.clone(), code: 1, funds: vec![], label: "another".into(), admin: None }, root: 0, nodes: vec![Node { writes: vec![WriteOp::Set(b"pre".to_vec(), b"another".to_vec())], ..Default::default() }] });
+        (keys, alphabet)
+    };
+    let (keys, alphabet) = make_alphabet(&adv);
     let inv = c08_invariant_with(&keys);
-    let ex = Explorer { ctx, name: "storage-isolation".into(), alphabet: alphabet.clone(), homes: &homes, max_depth: ctx.tier.pick(2, 3), max_states: ctx.tier.pick(200_000, 3_000_000), ext: false, invariant: Some(&inv), keep_states: true, enabled: None };
+    let ex = Explorer { ctx, name: "storage-isolation".into(), alphabet: alphabet.clone(), homes: &homes, max_depth: 2, max_states: 400_000, ext: false, invariant: Some(&inv), keep_states: false, enabled: None };
     let out = ex.run(&start);
     let samples = sample_paths(&out, &alphabet, 3);
+    // thorough: one level deeper over a smaller key alphabet
+    let (keys3, alphabet3) = make_alphabet(&pick(6));
+    let inv3 = c08_invariant_with(&keys3);
+    let mut outs: Vec<(&str, &ExploreOut)> = vec![("storage-isolation", &out)];
+    let out3;
+    if ctx.tier == Tier::Thorough {
+        let ex3 = Explorer { ctx, name: "storage-isolation-depth3".into(), alphabet: alphabet3.clone(), homes: &homes, max_depth: 3, max_states: 600_000, ext: false, invariant: Some(&inv3), keep_states: false, enabled: None };
+        out3 = ex3.run(&start);
+        outs.push(("storage-isolation-depth3", &out3));
+    }
     finish_explore(
         ctx,
-        &[("storage-isolation", &out)],
+        &outs,
         samples,
-        json!({"operations": alphabet.len(), "keys": keys.iter().map(|k| show(k)).collect::<Vec<_>>(), "adversarial_keys_harvested_from_raw_state": adv.len(), "depth": ctx.tier.pick(2, 3),
+        json!({"operations": alphabet.len(), "keys": keys.iter().map(|k| show(k)).collect::<Vec<_>>(), "adversarial_keys_harvested_from_raw_state": adv.len(), "depth": 2,
+               "thorough_second_exploration": {"operations": alphabet3.len(), "keys": keys3.len(), "depth": 3},
                "views_compared": ["contract's own get/range at entry (trace)", "WasmQuery::Raw", "dump_wasm_raw", "App::contract_storage get + range"]}),
         vec!["contracts: two from the same code and one from another, default bech32 addresses (the prefix-address world of DESIGN C08 is not built)".into()],
         json!({}),
